@@ -14,7 +14,20 @@ def jobs(tier):
         J.append(job(alg, 6, checks=ck)); J.append(job(alg, 7, checks=ck, order='asc')); J.append(job(alg, 7, checks=ck, order='desc'))
     for alg in ('ffd', 'bfd'):
         J.append(job(alg, 7, checks=ck, order='desc'))
+    # tier C: 9-12 items taking two or three distinct symbolic values, in runs (eight and more open bins)
+    for alg in ('ff', 'bf', 'ffd', 'bfd'):
+        for g in ([7, 2], [8, 2], [9, 1], [7, 1, 1], [6, 6]):
+            J.append(job(alg, sum(g), checks=ck, order='desc', groups=g))
+    for alg in ('ff', 'bf'):
+        for g in ([2, 7], [1, 8, 1]):
+            J.append(job(alg, sum(g), checks=ck, groups=g))
     if tier == 'thorough':
+        for alg in ('ff', 'bf', 'ffd', 'bfd'):
+            for g in ([8, 1, 1], [15, 2], [16, 3], [6, 3, 3], [4, 4, 4]):
+                J.append(job(alg, sum(g), checks=ck, order='desc', groups=g, mandatory=False))
+        for alg in ('ff', 'bf'):
+            for g in ([3, 8], [1, 9, 2], [8, 8]):
+                J.append(job(alg, sum(g), checks=ck, groups=g, mandatory=False))
         for alg in ('ff', 'bf'):
             J.append(job(alg, 7, checks=ck, mandatory=False)); J.append(job(alg, 8, checks=ck, order='desc', mandatory=False))
         for alg in ('ffd', 'bfd'):
@@ -23,7 +36,7 @@ def jobs(tier):
 
 
 ASSUMPTIONS = ['S1 numpy shim', 'S2 exact arithmetic', 'OPT from the expansion oracle over all assignments']
-OUTSIDE = ['more than 7 (quick) / 8 (thorough) items: the ratio bounds only become tight for dozens of items; at these sizes they are implied by the invariant',
+OUTSIDE = ['more than 7 (quick) / 8 (thorough) items with pairwise independent values, more than 12 (quick) / 19 (thorough) items in two or three runs of equal values: the ratio bounds only become tight for dozens of items; at these sizes they are implied by the invariant',
            'planted large instances']
 
 
